@@ -131,8 +131,9 @@ def run(tier, seed, escalate=False):
         if f["key"] not in seen:
             seen.add(f["key"]); res["impl_failures"].append(f)
     res["evaluations"] += n_eval
-    res["unproved_clauses"] = ["numpy.polyfit is assumed linear in y and exact on polynomials of degree <= deg (S1, S2): theorem "
-                               "hypotheses, exercised on the implementation by the oracle",
+    res["unproved_clauses"] = ["numpy.polyfit is assumed to meet its documented contract (it returns a polynomial of degree <= deg minimising the "
+                               "squared error on the fitting points): a theorem HYPOTHESIS from which linearity and exactness on polynomials are "
+                               "derived (lsq_linear, lsq_exact); that NumPy's SVD routine meets it is exercised by the oracle only",
                                "shift-equivariance of ndalign is checked on the implementation for single-peak traces only"]
     return res
 
